@@ -8,6 +8,7 @@
 #include "thrsim.h"
 
 uint64_t thr_shadow_overflow();
+extern uint64_t g_thr_step_cap;
 
 namespace {
 
@@ -130,6 +131,7 @@ struct ThrEngine : Engine {
 		for (size_t i = 0; i < ops.size(); i++) { int t = (int)ops[i].geti("t"); if (t >= 0 && t < nthreads) job.by_thread[(size_t)t].push_back(i); }
 		for (auto & v : job.by_thread) if (!v.empty()) active_threads++;
 		g_thr.switch_num = 1; g_thr.switch_den = (unsigned)std::max<int64_t>(2, plan.geti("switch_den", 3));
+		g_thr_step_cap = (uint64_t)plan.geti("access_cap", 300000000);      // ~400x a typical run
 		thr_run(nthreads, (uint64_t)plan.geti("schedule_seed", 1), worker_body, &job);
 		Json res = Json::object(), outs = Json::array(), viol;
 		for (auto & o : job.outs) outs.push(o);
@@ -176,12 +178,29 @@ struct ThrEngine : Engine {
 		return res;
 	}
 
+	// The access cap (the simulator's watchdog for this engine) comes from the work itself: each thread's stream is run
+	// alone first (these reference runs are needed for the interference oracle anyway and are memoised); the amount of
+	// instrumented work does not depend on the schedule, so 3x the sum + slack bounds any correct concurrent run.
+	void prepare(Json & plan, Ctx & ctx) override {
+		if (plan.geti("nthreads", 1) < 2 || plan.has("access_cap")) return;
+		int nthreads = (int)plan.geti("nthreads", 2);
+		int64_t sum = 0;
+		for (int t = 0; t < nthreads; t++) {
+			bool any = false; for (auto & o : plan.at("ops").a) if ((int)o.geti("t") == t) any = true;
+			if (!any) continue;
+			ChildOutcome r = ctx.run_ref(solo(plan, t));
+			if (r.status != "finished") return;      // let the run proceed under the default cap; judge() will sort it out
+			sum += r.result.at("probes").geti("instrumented_accesses");
+		}
+		plan["access_cap"] = 3 * sum + 500000;
+	}
 	// a thread's stream run alone (still through the scheduler, with one worker)
 	Json solo(const Json & plan, int t) {
 		Json p = plan;
 		Json ops = Json::array();
 		for (auto & o : plan.at("ops").a) if ((int)o.geti("t") == t) { Json c = o; c["t"] = 0; ops.push(c); }
 		p["ops"] = ops; p["nthreads"] = 1;
+		p.erase("access_cap");
 		return p;
 	}
 	Json isolate(const Json & plan, int k) override {
@@ -190,7 +209,23 @@ struct ThrEngine : Engine {
 	}
 
 	Json judge(const Json & plan, const ChildOutcome & out, Ctx & ctx) override {
-		if (out.status != "finished") return Json();
+		if (out.status != "finished") {
+			// the concurrent run crashed, called exit() or span past the access cap: if every thread's stream finishes when run
+			// alone in a fresh process, the failure needs the overlap - interference in its bluntest form
+			if (out.status == "timeout" || out.status == "harness") return Json();
+			int nthreads = (int)plan.geti("nthreads", 2);
+			for (int t = 0; t < nthreads; t++) {
+				bool any = false; for (auto & o : plan.at("ops").a) if ((int)o.geti("t") == t) any = true;
+				if (!any) continue;
+				ChildOutcome r = ctx.run_ref(solo(plan, t));
+				if (r.status != "finished") { Json oos = Json::object(); oos["out_of_scope"] = "thread " + std::to_string(t) + " alone: " + r.status; return oos; }
+			}
+			Json v = Json::object();
+			v["clause"] = "concurrent_run_fails"; v["class"] = out.status; v["op"] = out.last_op;
+			size_t nl = out.stderr_head.find('\n');
+			v["detail"] = "threads overlapping: " + out.status + (out.status == "signal" ? " " + std::to_string(out.sig) : "") + " (" + out.stderr_head.substr(0, std::min<size_t>(nl, 80)) + "); every thread's stream finishes when run alone";
+			return v;
+		}
 		if (!out.result.at("violation").is_null()) return out.result.at("violation");
 		// (2) interference: per-thread outputs equal the thread's stream alone in a fresh process
 		int nthreads = (int)plan.geti("nthreads", 2);
